@@ -92,6 +92,7 @@ func (em *Environmental) Decode(vector string) (*Environmental, error) {
 	return em, nil
 }
 func (em *Environmental) decodeOne(str string) error {
+	verifTrace("v3.environmental.decodeOne", em, str)
 	if err := em.Temporal.decodeOne(str); err != nil {
 		if !errs.Is(err, cvsserr.ErrNotSupportMetric) {
 			return errs.Wrap(err, errs.WithContext("metric", str))
